@@ -212,13 +212,32 @@ func suiteReconf(r *rng, n int) {
 		cacheIdx := map[interface{}]int{}
 		emit("reconf", "begin", itoa(int64(seq)), observeReconf(cacheIdx))
 		steps := 2 + cr.intn(5)
+		var prev *config.PikeConfig
 		for i := 0; i < steps; i++ {
 			c := genReconf(cr)
+			if prev != nil && len(prev.Servers) > 0 && cr.chance(35) {
+				// a small edit of the previous configuration: exactly one setting of one server changes (updates
+				// that touch a single field must be applied like any other)
+				cp := *prev
+				cp.Servers = append([]config.ServerConfig(nil), prev.Servers...)
+				sv := &cp.Servers[cr.intn(len(cp.Servers))]
+				switch cr.intn(3) {
+				case 0:
+					sv.CompressContentTypeFilter = map[string]string{"": "text|json", "text|json": "image", "image": "text|json"}[sv.CompressContentTypeFilter]
+				case 1:
+					sv.CompressMinLength = map[string]string{"": "2kb", "1kb": "512", "512": "2kb", "2kb": "1kb"}[sv.CompressMinLength]
+				default:
+					sv.Cache = cp.Caches[cr.intn(len(cp.Caches))].Name
+				}
+				c = &cp
+				stat("single-field-updates")
+			}
 			if err := c.Validate(); err != nil {
 				emit("reconf", "invalid", err.Error())
 				continue
 			}
 			applyLikeMainUpdate(c)
+			prev = c
 			emit("reconf", "update", encReconf(c), "=>", observeReconf(cacheIdx))
 			stat("updates")
 		}
